@@ -364,11 +364,16 @@ class Rewriter:
         return text
 
     def number_sites(self, text, fname, ops=('LOAD', 'STORE', 'XCHG', 'CAS', 'FETCH_ADD', 'FETCH_SUB', 'FETCH_OR', 'FETCH_AND',
-                                              'PREINC', 'PREDEC', 'POSTINC', 'POSTDEC'), expect=None):
+                                              'PREINC', 'PREDEC', 'POSTINC', 'POSTDEC'), expect=None, by_kind=False):
         cnt = [0]
+        kinds = {}
 
         def site(m):
             cnt[0] += 1
+            if by_kind:   # <fname>_<OP>_<k>: robust against added/removed sites of other kinds
+                k = m.group(1)[len('ATOMIC_'):]
+                kinds[k] = kinds.get(k, 0) + 1
+                return '%s_AT(%s_%s_%d, ' % (m.group(1), fname, k, kinds[k])
             return '%s_AT(%s_%d, ' % (m.group(1), fname, cnt[0])
         text = re.sub(r'\b(ATOMIC_(?:%s))\(' % '|'.join(ops), site, text)
         if expect is not None and cnt[0] != expect:
@@ -557,7 +562,11 @@ class CClass:
         m = re.fullmatch(r'std::atomic<\s*(.+?)\s*>', t)
         if m:
             t = m.group(1)
-        t = self.tbind.get(t, t)
+        if t in self.tbind:
+            t = self.tbind[t]
+        else:
+            for k, v in self.tbind.items():
+                t = re.sub(r'(?<![\w:])%s\b' % re.escape(k), v, t)
         t = re.sub(r'\bstd::', '', t)
         return t
 
